@@ -6,5 +6,5 @@ PROPS = "theories/Props/C14.v"
 
 def run(ctx):
     # same matrix, checker settings only; judged on the result class and (counting checker) the exact comparisons
-    return c13.run(ctx, prop="C14", props=PROPS, checkers=("byteeq", "panic", "count", "counterr"),
+    return c13.run(ctx, prop="C14", props=PROPS, checkers=("byteeq", "panic", "count", "counterr", "countnf"),
                    field_filter=lambda desc, b: b[0] in ("res", "cmps"))
